@@ -13,19 +13,18 @@ import pay_common as pc
 
 
 def pick(got, rng):
-    # prefer behaviours in which a resolution reached the payer (the others end with HTLCs held), and among
-    # those the ones with a restart or a duplicate delivery
+    # every behaviour that shows a feature (repeated event after a restart, duplicate delivery, refused send,
+    # abandon with parts in flight); of the plain ones prefer those in which a resolution reached the payer
     def has(s, *names):
         return any(o["op"] in names for o in s["ops"])
-    a0 = [s for s in got if has(s, "restart") and has(s, "claim") and has(s, "deliver")]
-    a = [s for s in got if has(s, "restart") and has(s, "deliver") and not has(s, "claim")]
-    b = [s for s in got if has(s, "dup") and not has(s, "restart")]
-    c = [s for s in got if has(s, "deliver") and not has(s, "restart", "dup")]
-    d = [s for s in got if not has(s, "deliver")]
-    for x in (a0, a, b, c, d):
+    f = [s for s in got if s.get("feat")]
+    rep = [s for s in f if any("repeated" in x for x in s["feat"])]
+    c = [s for s in got if not s.get("feat") and has(s, "deliver")]
+    d = [s for s in got if not s.get("feat") and not has(s, "deliver")]
+    for x in (f, c, d):
         rng.shuffle(x)
-    n = max(100, len(a0))
-    return a0 + a[:n] + b[:n // 2] + c[:n] + d[:n // 6]
+    n = max(100, len(f))
+    return {"must": rep, "rest": f + c[:n // 2] + d[:n // 8]}
 
 
 def _second_sent(r, k, recs):
@@ -121,7 +120,7 @@ def run(tier, seed):
         random_fn=lambda rng, consts: pc.random_send_script(rng),
         n_tlc=6000 if thorough else 700, n_rand=12000 if thorough else 800,
         need={"ev_PaymentSent": 50, "ev_PaymentFailed": 50, "ev_PaymentPathFailed": 50, "restart": 30, "send_dup": 20,
-              "send_multipart": 50, "runs_with_repeated_PaymentSent": 1, "runs_with_repeated_PaymentFailed": 1, "quiet": 100},
+              "send_multipart": 50, "runs_with_repeated_PaymentSent": 3, "runs_with_repeated_PaymentFailed": 3, "restart_stale": 5, "pathfailed_hop3": 20, "quiet": 100},
         selftests=SELFTESTS, pick=pick, probes=PROBES,
         assumptions=pc.COMMON_ASSUMPTIONS + [
             "the channel named by PaymentPathFailed is accepted if it is the hop on which the failing node received the "
